@@ -152,9 +152,8 @@ def geometry_mesh_defaults(env, nx, ny, symmetry, camber):
     env.holds("C13", "GeometryMesh chains the nine transformations in the documented order",
               names == ["taper", "scale_x", "sweep", "shear_x", "stretch", "shear_y", "dihedral", "shear_z", "rotate"], str(names))
     given = {}
-    for prom, targets in g.prom_inputs().items():
-        a = targets[0]
-        given[prom] = env.const(np.array(g.prob.get_val(a)))              # every free input at its declared default
+    for prom in g.prom_inputs():
+        given[prom] = env.const(g.default_of(prom))              # every free input at its declared default
     vals = g.run(given)
     env.eq("C13", "all-default geometry group returns the surface's mesh unchanged [camber=%s]" % camber,
            g.get(vals, "mesh"), env.const(s["mesh"]))
@@ -178,8 +177,8 @@ def geometry_mesh_ref_axis(env, nx, ny, symmetry, ref_axis_pos):
     c = env.var("chord", (nyy,))
     tw = env.var("twist", (nyy,))
     given = {}
-    for prom, targets in g.prom_inputs().items():
-        given[prom] = env.const(np.array(g.prob.get_val(targets[0])))
+    for prom in g.prom_inputs():
+        given[prom] = env.const(g.default_of(prom))
     given.update(taper=t, chord=c, twist=tw)
     out = g.get(g.run(given), "mesh")
     M = env.const(s["mesh"])
